@@ -26,7 +26,7 @@ import props.c13 as c13
 ID = 'C14'
 LEAN_MODULES = ['Yaql.Props.C14', 'Yaql.Props.C14Gen']
 REQUIRED_THEOREMS = ['Yaql.Props.C14.' + n for n in (
-    'causal causal_pipeline runOn_ext runPipe_ext prefix_stable pulls_le firstK_causal endless_total compose_cost '
+    'causal causal_pipeline runOn_ext runPipe_ext prefix_stable pulls_le firstK_causal endless_total compose compose_cost '
     'causal_select causal_where causal_selectMany causal_skip causal_take causal_takeWhile causal_skipWhile causal_append '
     'causal_concat causal_distinct causal_enumerate causal_zip causal_accumulate causal_insert causal_delete causal_replace '
     'causal_slice causal_memorize causal_member causal_first causal_any causal_all causal_indexOf causal_indexWhere '
